@@ -5,7 +5,7 @@
 
    * Steps of the engine (Append, Engine.Commit, COMMIT, re-read Apply/Skip, drain of the
      apply queue, ChangeRole) are replayed through the specification's own pieces
-     (DoWriteBase, CommitStoreBase, TxCommitEffect, ReadApplyCore, ReadSkipCore, DrainEffect,
+     (DoAppendBase, DoQueueEffect, CommitStoreBase, TxCommitEffect, ReadApplyCore, ReadSkipCore, DrainEffect,
      ReplayDoneCore, RestartCore); a step the specification cannot take rejects the trace.
    * Observations (what the write connection shows after a restart and in Do-reads, what
      View returns, which writes were acknowledged, and -- after each kill -- the database
@@ -61,7 +61,7 @@ TrDisk == /\ IsEvent("Disk")
                 /\ tx' = dbC'
                 /\ cleanOK' = (E.status = "exit0" => E.dbrows = UserIds(recs))
           /\ Mem0
-          /\ cl' = [w \in Writes |-> IF cl[w] = "waiting" THEN "lost" ELSE cl[w]]
+          /\ cl' = [w \in Writes |-> IF cl[w] \in {"waiting", "appended"} THEN "lost" ELSE cl[w]]
           /\ crashes' = crashes + 1
           /\ UNCHANGED <<acked, failedW, seen, readRet, nreads, closes, hist>>
 
@@ -155,11 +155,19 @@ TrAppendA ==
   /\ dbOffset = E.off
   /\ LET svc == E.next - E.off - E.sz
      IN /\ svc >= 0
-        /\ IF Dur = "wait" THEN DoWriteBase(E.w, E.sz, svc)
-           ELSE IF E.asap THEN DoNowBeginBase(E.w, E.sz, svc) ELSE DoWriteLazyBase(E.w, E.sz, svc)
+        /\ DoAppendBase(E.w, E.sz, svc, IF Dur = "wait" THEN "wait" ELSE IF E.asap THEN "now" ELSE "lazy")
   /\ dbOffset' = E.next
   /\ pend' = <<>>
-  /\ UNCHANGED <<acked, hist, diskOK, cleanOK>>
+  /\ UNCHANGED <<hist, diskOK, cleanOK>>
+
+\* the wait-queue section of the same Do: whether it waits is taken from the engine (the
+\* acknowledgement it leads to is judged by AckedDurable, the COMMIT by DbNotAheadOfSync)
+TrDoQueued ==
+  /\ IsEvent("DoQueued")
+  /\ IF E.event /\ lock # 0
+       THEN DoQueueEffect(lock, E.waits) /\ UNCHANGED <<acked, hist>>
+       ELSE UNCHANGED vars
+  /\ Quiet
 
 \* Append entered (under the connection lock): from now on the event may reach the file
 TrAppendB == /\ IsEvent("AppendB")
@@ -187,14 +195,14 @@ TrView == /\ IsEvent("View")
 
 \* informative events and kill points without an abstract effect of their own
 Silent == {"TxAfterBegin", "TxAfterCommit", "SavepointEnd", "SkipDone", "ApplyDone", "ApplyQueued",
-           "CommitStored", "CommitNotified", "BlCommitDone", "DoOffsetUpdated", "DoQueued",
+           "CommitStored", "CommitNotified", "BlCommitDone", "DoOffsetUpdated",
            "BlRun", "Kill", "End", "CloseBegin", "Closed", "Torn"}
 TrSilent == /\ l <= Len(Trace) /\ Trace[l].ev \in Silent /\ l' = l + 1
             /\ UNCHANGED vars /\ Quiet
 
 TrNext == \/ TrReset \/ TrDisk \/ TrOpen \/ TrRSkip \/ TrRApply \/ TrBlCommit \/ TrTxBeforeCommit
           \/ TrQueueApplied \/ TrChangeRole \/ TrLoadTx("Up") \/ TrLoadTx("Read") \/ TrExec \/ TrAppendA
-          \/ TrAppendB \/ TrRet \/ TrReadRet \/ TrView \/ TrSilent
+          \/ TrAppendB \/ TrDoQueued \/ TrRet \/ TrReadRet \/ TrView \/ TrSilent
 TraceSpec == TrInit /\ [][TrNext]_tvars
 
 DiskBinlogSound == diskOK
